@@ -1,0 +1,101 @@
+// Instrumentation used only by external runtime-verification harnesses.
+//
+// Compiled only with the `verif-hooks` cargo feature (off by default). With the feature on but
+// no callback installed and the read cap left at its default, behaviour is unchanged.
+
+use std::cell::RefCell;
+use std::ops::{Deref, DerefMut};
+use std::sync::atomic::{AtomicUsize, Ordering};
+use std::sync::{LockResult, PoisonError};
+
+/// A scheduling-relevant event of the instrumented [`Mutex`].
+#[derive(Clone, Copy, Debug, PartialEq, Eq)]
+pub enum LockEvent {
+    /// The calling thread is about to try to acquire the lock.
+    BeforeLock,
+    /// The calling thread now holds the lock.
+    AfterLock,
+    /// The calling thread has just released the lock.
+    AfterUnlock,
+}
+
+type Callback = Box<dyn FnMut(LockEvent)>;
+
+thread_local! {
+    static CALLBACK: RefCell<Option<Callback>> = const { RefCell::new(None) };
+}
+
+/// Installs (or with `None` removes) the calling thread's lock-event callback, returning the
+/// previous one.
+pub fn set_thread_callback(cb: Option<Callback>) -> Option<Callback> {
+    CALLBACK.with(|c| std::mem::replace(&mut *c.borrow_mut(), cb))
+}
+
+fn emit(ev: LockEvent) {
+    // `try_with`: may be called during thread teardown; `try_borrow_mut`: the callback itself
+    // may (indirectly) take an instrumented lock.
+    let _ = CALLBACK.try_with(|c| {
+        if let Ok(mut c) = c.try_borrow_mut() {
+            if let Some(f) = c.as_mut() {
+                f(ev);
+            }
+        }
+    });
+}
+
+/// Drop-in replacement for the parts of `std::sync::Mutex` that `chunker.rs` uses, reporting
+/// acquisitions and releases to the calling thread's callback.
+pub struct Mutex<T>(std::sync::Mutex<T>);
+
+impl<T> Mutex<T> {
+    /// See `std::sync::Mutex::new`.
+    pub fn new(t: T) -> Self {
+        Mutex(std::sync::Mutex::new(t))
+    }
+
+    /// See `std::sync::Mutex::lock`.
+    pub fn lock(&self) -> LockResult<MutexGuard<'_, T>> {
+        emit(LockEvent::BeforeLock);
+        let r = self.0.lock();
+        emit(LockEvent::AfterLock);
+        match r {
+            Ok(g) => Ok(MutexGuard(Some(g))),
+            Err(p) => Err(PoisonError::new(MutexGuard(Some(p.into_inner())))),
+        }
+    }
+}
+
+/// Guard returned by [`Mutex::lock`].
+pub struct MutexGuard<'a, T>(Option<std::sync::MutexGuard<'a, T>>);
+
+impl<T> Deref for MutexGuard<'_, T> {
+    type Target = T;
+    fn deref(&self) -> &T {
+        self.0.as_ref().expect("guard present until drop")
+    }
+}
+
+impl<T> DerefMut for MutexGuard<'_, T> {
+    fn deref_mut(&mut self) -> &mut T {
+        self.0.as_mut().expect("guard present until drop")
+    }
+}
+
+impl<T> Drop for MutexGuard<'_, T> {
+    fn drop(&mut self) {
+        drop(self.0.take());
+        emit(LockEvent::AfterUnlock);
+    }
+}
+
+static READ_CAP: AtomicUsize = AtomicUsize::new(usize::MAX);
+
+/// Limits every positioned file read to at most `cap` bytes (process-wide), to inject short
+/// reads. `usize::MAX` (the default) disables the limit.
+pub fn set_read_cap(cap: usize) {
+    READ_CAP.store(cap.max(1), Ordering::SeqCst);
+}
+
+pub(crate) fn cap_read(n: usize) -> usize {
+    n.min(READ_CAP.load(Ordering::SeqCst))
+}
